@@ -25,10 +25,13 @@ Record represents (f : fs) (d : db) : Prop := mkRep {
 
 Lemma eff_ok_wf e : eff_ok e = true -> wf_effect (image e).
 Proof.
-  unfold wf_effect. destruct e as [s n|s n|s k c|s k|s k c|s k]; cbn [image effect_target eff_ok]; intro H;
-    try apply is_tmp_vpath; try apply is_tmp_cpath;
-    rewrite is_tmp_dpath; apply andb_true_iff in H; destruct H as [_ H];
-    destruct (is_tmp n); [discriminate|reflexivity].
+  unfold wf_effect. destruct e as [s n|s n|s k c|s k|s k c|s k]; cbn [image effect_target eff_ok]; intro H.
+  - rewrite is_tmp_dpath. apply andb_true_iff in H. destruct H as [_ H]. destruct (is_tmp n); [discriminate|reflexivity].
+  - rewrite is_tmp_dpath. apply andb_true_iff in H. destruct H as [_ H]. destruct (is_tmp n); [discriminate|reflexivity].
+  - apply is_tmp_vpath.
+  - apply is_tmp_vpath.
+  - apply is_tmp_cpath.
+  - apply is_tmp_cpath.
 Qed.
 
 Lemma effs_ok_wf es : forallb eff_ok es = true -> Forall wf_effect (images es).
